@@ -591,6 +591,14 @@ func (index *setIndex) getIndexBucket(tx *bbolt.Tx, key []byte) *TypedBucket {
 	return indexBucket.GetOrCreateBucket(string(key))
 }
 
+func (index *setIndex) getIndexBucketReadOnly(tx *bbolt.Tx, key []byte) *TypedBucket {
+	indexBucket := Path(tx, index.indexPath...)
+	if indexBucket == nil {
+		return nil
+	}
+	return indexBucket.GetBucketByKey(key)
+}
+
 func (index *setIndex) deleteIndexKey(tx *bbolt.Tx, key []byte) error {
 	indexBucket := Path(tx, index.indexPath...)
 	if indexBucket == nil {
@@ -685,10 +693,14 @@ func (index *setIndex) CheckIntegrity(ctx MutateContext, fix bool, errorSink fun
 		valuesCursor := setBucket.Cursor()
 		for val, _ := valuesCursor.First(); val != nil; val, _ = valuesCursor.Next() {
 			_, value := GetTypeAndValue(val)
-			idxBucket := index.getIndexBucket(tx, value)
+			idxBucket := index.getIndexBucketReadOnly(tx, value)
 			key := PrependFieldType(TypeString, id)
-			if !idxBucket.IsKeyPresent(key) {
+			if idxBucket == nil || !idxBucket.IsKeyPresent(key) {
 				if fix {
+					idxBucket = index.getIndexBucket(tx, value)
+					if idxBucket.HasError() {
+						return idxBucket.GetError()
+					}
 					if err := idxBucket.Put(key, nil); err != nil {
 						return err
 					}
